@@ -177,3 +177,141 @@ func TestC11_tie_parallel(t *testing.T) {
 		Run: runC11T, NoShrink: true, Timeout: 30 * time.Second,
 	})
 }
+
+// ---- a release racing the FIRST waiter's way into the backlog, then a later arrival ----
+//
+// The holder releases while W1 is between "delegate refused" and "parked". Once everything is
+// quiescent a second caller W2 arrives on its own. The released unit must have gone to W1 (it was the
+// only caller in line); W2 being served while W1 still waits means the released capacity went to a caller
+// that was not even waiting, ahead of one that was - for FIFO and LIFO alike.
+
+type c11aCase struct {
+	Stack   StackCfg  `json:"stack"`
+	Order   []int     `json:"order"` // 0 = releaser, 1 = W1's arrival
+	Outcome int       `json:"outcome"`
+	Yields  yieldList `json:"yields"`
+	Par     bool      `json:"par,omitempty"`
+}
+
+func runC11A(t *testing.T, c c11aCase) kit.Outcome {
+	return bubble(t, func() kit.Outcome {
+		t0 := time.Now()
+		sc := newSched(c.Yields)
+		sc.spin = c.Par
+		sc.arm(false)
+		st, err := buildStack(c.Stack, nil, sc, t0)
+		if err != nil {
+			return kit.Outcome{Harness: err.Error()}
+		}
+		sc.install()
+		defer (*sched)(nil).install()
+		w := newWorld(st, t0)
+		kind := c.Stack.Kind + "-" + ordName(c.Stack.wantLIFO())
+		holder := w.newCaller("a", 0, 0)
+		w.start(holder)
+		synctest.Wait()
+		if !holder.Done || !holder.OK {
+			w.unwind(2 * time.Second)
+			w.flush()
+			return kit.Outcome{Harness: "set-up failed"}
+		}
+		w1 := w.newCaller("a", 0, 0)
+		sc.arm(true)
+		for _, a := range c.Order {
+			if a == 0 {
+				w.mu.Lock()
+				holder.Released = true
+				w.mu.Unlock()
+				w.wg.Add(1)
+				go func() { defer w.wg.Done(); complete(holder.L, c.Outcome) }()
+			} else {
+				w.start(w1)
+			}
+		}
+		synctest.Wait()
+		sc.arm(false)
+		w1Waiting := !w1.Done
+		w2 := w.newCaller("a", 0, 0)
+		w.start(w2)
+		synctest.Wait()
+		var viol *kit.Outcome
+		switch {
+		case w.now() != 0:
+			o := kit.Outcome{Harness: "virtual clock advanced during the scenario"}
+			viol = &o
+		case w1.Done && !w1.OK:
+			o := kit.Viol(kind+":first-refused", "the only caller in line was refused although the holder released and no bound had passed; points %v", sc.Trace)
+			viol = &o
+		case w1Waiting && w2.Done && w2.OK:
+			o := kit.Viol(kind+":served-ahead", "the holder released while caller %d was on its way into the (empty) backlog; at quiescence caller %d was still waiting, and caller %d, arriving afterwards, was served ahead of it; spawn order %v; points %v",
+				w1.ID, w1.ID, w2.ID, c.Order, sc.Trace)
+			viol = &o
+		}
+		overlapped := false
+		for i, p := range sc.Trace {
+			if p == "queue.beforePush" {
+				for _, q := range sc.Trace[:i] {
+					overlapped = overlapped || q == "delegate.failed"
+				}
+				for _, q := range sc.Trace[i:] {
+					overlapped = overlapped || q == "inner.completed"
+				}
+			}
+		}
+		msg := w.unwind(c.Stack.effTimeout() + 2*time.Second)
+		w.flush()
+		if viol != nil {
+			return *viol
+		}
+		if msg != "" {
+			return kit.Viol(kind+":stuck", "%s", msg)
+		}
+		if b := st.busy(); b != 0 {
+			return kit.Viol(kind+":end-busy", "after every granted listener completed: busy=%d", b)
+		}
+		parked := false
+		for _, p := range sc.Trace {
+			parked = parked || p == "queue.pushed"
+		}
+		return kit.Outcome{NonTrivial: parked, Labels: []string{"kind:" + kind, fmt.Sprintf("w1-parked:%v", parked), fmt.Sprintf("w1-granted-before-w2:%v", !w1Waiting), fmt.Sprintf("release-inside-push-window:%v", overlapped)}}
+	})
+}
+
+func TestC11_arrive_enum_Coop(t *testing.T) {
+	kit.RequireMode(t, "coop")
+	if kit.Replay != "" {
+		kit.Check(t, kit.Prop[c11aCase]{ID: "C11", Run: runC11A})
+		return
+	}
+	d := kit.NewDirect[c11aCase](t, "C11", "exhaustive: queue limiter (FIFO / LIFO / default) with one unit held and an empty backlog x {release, arrival of W1} in both spawn orders x completion outcome x yields in {0,1,3}^k (k=6, thorough 8), then W2 arrives at quiescence; W2 must not be served while W1 still waits; non-trivial = W1 was parked in the backlog")
+	k := 6
+	if kit.Thorough() {
+		k = 8
+	}
+	vals := []uint8{0, 1, 3}
+	total := 1
+	for i := 0; i < k; i++ {
+		total *= len(vals)
+	}
+	for _, base := range c11tStacks {
+		for _, order := range [][]int{{0, 1}, {1, 0}} {
+			for code := kit.Shard; code < total; code += kit.Shards {
+				ys := make(yieldList, k)
+				x := code
+				for i := range ys {
+					ys[i] = vals[x%len(vals)]
+					x /= len(vals)
+				}
+				stk := base
+				stk.Strategy, stk.Limit, stk.Inject, stk.Evict, stk.Backlog, stk.TimeoutMs = "simple", 1, true, code%2 == 0, 4, 500
+				c := c11aCase{Stack: stk, Order: order, Outcome: code % 3, Yields: ys}
+				stop := kit.Watch("C11", t.Name(), c)
+				o := runC11A(t, c)
+				stop()
+				if !d.Account(c, o) {
+					return
+				}
+			}
+		}
+	}
+}
